@@ -15,10 +15,11 @@ SPEC = {
         Job("chain-p1", "verifsim", "^TestVerifC01Chain$", shards=(1, 2), timeout=(900, 3600), gomaxprocs=1, env={"TZ": "Pacific/Pago_Pago"}),
         Job("chain-p16", "verifsim", "^TestVerifC01Chain$", shards=(1, 2), timeout=(900, 3600), gomaxprocs=16, env={"TZ": "Pacific/Tongatapu"}),
         Job("tzgrid", "verifsim", "^TestVerifC01TimeZone$", shards=(1, 1), timeout=(300, 300)),
+        Job("shards", "verifsim", "^TestVerifC01Shards$", shards=(1, 2), timeout=(900, 3600)),
     ],
     "floors": {"revalidations": (5000, 50000), "epochs_finished": (4, 30), "epochs_finished_large_network": (1, 2), "identity_update_blocks": 50,
                "snapshot_blocks": 50, "contract_blocks": 20, "restarts": 10, "detours": 10, "distinct_map_orders_witnessed": 3,
-               "timezone_grid_points": 60000},
+               "timezone_grid_points": 250000, "activation_blocks_with_tied_minimal_shards": 5, "max_shards_num": 2},
     "parallel": 16,
-    "assumptions": ["consensus config V12", "replicas run sequentially in one goroutine; the host time zone is switched per replica via time.Local"],
+    "assumptions": ["consensus config V12", "daylight-saving zones (Europe/Berlin, America/New_York, Australia/Sydney) are used when the host has a tz database (counter dst_zones_available)", "replicas run sequentially in one goroutine; the host time zone is switched per replica via time.Local"],
 }
